@@ -40,7 +40,7 @@ var engines = map[string]engineSpec{
 // propEngines lists the engines whose runs decide a property, with weights.
 var propEngines = map[string][]string{
 	"C01": {"e1"}, "C02": {"e1", "e2"}, "C03": {"e2"}, "C04": {"e1", "e2"}, "C05": {"e1"}, "C06": {"e1", "e1", "e2"}, "C07": {"e1"},
-	"C08": {"e1", "e2"}, "C09": {"e1", "e2"}, "C10": {"e3"}, "C11": {"e1"}, "C12": {"e1"}, "C13": {"e13", "e13", "e2"}, "C14": {"e1"}, "C15": {"e2"}, "C16": {"e2"}, "C17": {"e1", "e1", "e2"},
+	"C08": {"e1", "e2"}, "C09": {"e1", "e2"}, "C10": {"e3"}, "C11": {"e1"}, "C12": {"e1"}, "C13": {"e13", "e13", "e2"}, "C14": {"e1", "e1", "e2"}, "C15": {"e2"}, "C16": {"e2"}, "C17": {"e1", "e1", "e2"},
 	"C18": {"e1", "e2"}, "C19": {"e1"}, "C20": {"e2"},
 }
 
@@ -482,4 +482,33 @@ func progSize(p *Program) int {
 		n += len(t)
 	}
 	return n
+}
+
+// TestSeedReplay re-generates the program of one (property, engine, seed) in a fresh process, runs
+// it unminimised, and, if this property is violated, writes a replay file. The driver uses it
+// when a minimised replay does not reproduce (state that leaked between runs of one worker
+// process can make the minimiser drop the operations that really matter).
+func TestSeedReplay(t *testing.T) {
+	prop := os.Getenv("SEED_REPLAY_PROP")
+	if prop == "" {
+		t.Skip()
+	}
+	seed, _ := strconv.ParseUint(os.Getenv("SEED_REPLAY_SEED"), 10, 64)
+	eng := engines[os.Getenv("SEED_REPLAY_ENGINE")]
+	prog := eng.Gen(prop, seed)
+	res := eng.Run(t, prog, true)
+	out := map[string]any{"reproduced": false}
+	if v := res.For(prop, os.Getenv("SEED_REPLAY_ORACLE")); v != nil {
+		if res.CrashAt != 0 || res.Torn {
+			prog.CrashAt, prog.Torn = res.CrashAt, res.Torn
+		}
+		rf := ReplayFile{Property: prop, Engine: eng.Name, Seed: seed, Program: prog, Violation: v, Trace: res.Log,
+			Note: "unminimised program of this seed (the minimised one did not reproduce in a fresh process); replay with: ./check " + prop + " --replay <this file>"}
+		path := fmt.Sprintf("%s/%s-%s-%d-full.json", os.Getenv("VERIF_REPLAY_DIR"), prop, strings.ReplaceAll(v.Oracle, ":", "_"), seed)
+		b, _ := json.MarshalIndent(rf, "", " ")
+		_ = os.MkdirAll(os.Getenv("VERIF_REPLAY_DIR"), 0755)
+		_ = os.WriteFile(path, b, 0644)
+		out = map[string]any{"reproduced": true, "replay": path, "msg": v.Msg, "oracle": v.Oracle}
+	}
+	writeJSONAtomic(os.Getenv("VERIF_OUT"), out)
 }
